@@ -8,6 +8,7 @@ import (
 	"os"
 	"path/filepath"
 	"runtime/debug"
+	"strings"
 	"testing"
 	"time"
 )
@@ -65,6 +66,46 @@ func runSeed(seed int64, run int) int64 {
 	return int64(x & 0x7fffffffffffffff)
 }
 
+// safeExecute runs a plan; a panic raised inside the database's own code (first non-runtime frame in
+// package pogreb) is a violation of whatever property the run is about - the call did not deliver its
+// result. A panic anywhere else is a harness defect and crashes the worker (exit 2 of the check).
+func safeExecute(eng Engine, p *Plan) (res *RunResult) {
+	defer func() {
+		r := recover()
+		if r == nil {
+			return
+		}
+		stack := string(debug.Stack())
+		if fn := firstUserFrame(stack); strings.HasPrefix(fn, "github.com/akrylysov/pogreb") {
+			res = newResult()
+			res.V = violf("panic", "the database panicked: %v in %s | %s", r, fn, trimStack(stack))
+			return
+		}
+		panic(fmt.Sprintf("%v\n%s", r, stack))
+	}()
+	return eng.Execute(p)
+}
+
+// firstUserFrame returns the function of the first stack frame below the panic machinery.
+func firstUserFrame(stack string) string {
+	lines := strings.Split(stack, "\n")
+	seenPanic := false
+	for _, l := range lines {
+		if strings.HasPrefix(l, "\t") || strings.HasPrefix(l, "goroutine ") || l == "" {
+			continue
+		}
+		if strings.HasPrefix(l, "panic(") {
+			seenPanic = true
+			continue
+		}
+		if !seenPanic || strings.HasPrefix(l, "runtime.") || strings.HasPrefix(l, "runtime/") {
+			continue
+		}
+		return l
+	}
+	return ""
+}
+
 func TestWorker(t *testing.T) {
 	if *flagProp == "" {
 		t.Skip("no -prop")
@@ -79,7 +120,7 @@ func TestWorker(t *testing.T) {
 		if err != nil {
 			t.Fatal(err)
 		}
-		r := eng.Execute(p)
+		r := safeExecute(eng, p)
 		if r.V != nil {
 			fmt.Printf("REPLAY-VIOLATION property=%s class=%s detail=%s\n", p.Property, r.V.Class, r.V.Detail)
 			if p.Class != "" && r.V.Class != p.Class {
@@ -105,7 +146,7 @@ func TestWorker(t *testing.T) {
 		rng := rand.New(rand.NewSource(rs))
 		plan := eng.Generate(rng, *flagProp, thorough)
 		plan.Seed = rs
-		res := eng.Execute(plan)
+		res := safeExecute(eng, plan)
 		wr.Runs++
 		wr.Evaluations += res.Evaluations
 		if res.NonTrivial {
@@ -147,7 +188,7 @@ func TestWorker(t *testing.T) {
 			classes[res.V.Class] = true
 			plan.Class, plan.Detail = res.V.Class, res.V.Detail
 			min := Minimise(eng, plan, res.V.Class, 20*time.Second)
-			r2 := eng.Execute(min)
+			r2 := safeExecute(eng, min)
 			rep := VioReport{Class: res.V.Class, Detail: res.V.Detail, Seed: rs, Run: run}
 			if r2.V != nil && r2.V.Class == res.V.Class {
 				min.Class, min.Detail = r2.V.Class, r2.V.Detail
@@ -155,7 +196,7 @@ func TestWorker(t *testing.T) {
 				rep.Reproduced = true
 			} else {
 				min = plan
-				r3 := eng.Execute(plan)
+				r3 := safeExecute(eng, plan)
 				rep.Reproduced = r3.V != nil && r3.V.Class == res.V.Class
 			}
 			rep.Ops = min.NumOps()
